@@ -10,13 +10,14 @@ Recs == ndJsonDeserialize(IOEnv.TRACE_FILE)
 VARIABLE i
 Init == i = 1
 Min(S) == CHOOSE x \in S : \A y \in S : x <= y
-DefSyms == {"\\newcommand", "\\renewcommand", "\\def", "\\newcommand{", "\\def\\y#1{"}
-IsCS(s) == s \in {"\\foo", "\\x", "\\y", "\\q", "\\gls"}
-\* outside the claim of C07: after a definition symbol the same control sequence occurs twice
-SelfRec(doc) == \E a \in 1..Len(doc) : doc[a] \in DefSyms /\
-                  \E b, c \in (a+1)..Len(doc) : b < c /\ doc[b] = doc[c] /\ IsCS(doc[b])
+\* outside the claim of C07 (as for TeX itself): a definition that calls itself.  r.cs[i] is the name of the control sequence
+\* the i-th snippet starts with ("" if none).  After a defining macro the same control sequence occurs twice: the first
+\* occurrence can be the name being defined, the second its body (\newcommand\phantom\phantom ... \phantom never terminates).
+DefNames == {"\\newcommand", "\\renewcommand", "\\def"}
+SelfRec(r) == \E a \in 1..Len(r.cs) : r.cs[a] \in DefNames /\
+                  \E b, c \in (a+1)..Len(r.cs) : b < c /\ r.cs[b] = r.cs[c] /\ r.cs[b] # ""
 C07(r) == IF r.outcome = "returned" THEN "ok"
-          ELSE IF r.outcome \in {"hang", "exception:RecursionError"} /\ SelfRec(r.doc) THEN "excluded"
+          ELSE IF r.outcome \in {"hang", "exception:RecursionError"} /\ SelfRec(r) THEN "excluded"
           ELSE r.outcome
 PartBad(r, p) == LET pl == r.parts[p].plain mp == r.parts[p].map IN
    IF Len(pl) # Len(mp) THEN "length-text-" \o ToString(Len(pl)) \o "-map-" \o ToString(Len(mp)) \o "@part" \o ToString(p)
